@@ -231,18 +231,17 @@ func (c *Ctx) dhMethodShape(m *ssa.Function, mn string) (bool, string) {
 	if len(rets) != 1 || len(rets[0].Results) != 1 {
 		return false, "expected a single return of one value"
 	}
-	ap, ok := rets[0].Results[0].(*ssa.Call)
-	if !ok {
-		return false, "result is not an append"
+	// result = zeros(factorBytesLength - len(x)) | x, by append(make(L-len(x)), x...) or by copying x into the
+	// tail of make(L)
+	f := c.NewFA(m)
+	parts, okP := c.concatOf(f, rets[0].Results[0], rets[0], 0)
+	if !okP || len(parts) != 2 || parts[0].Kind != "zeros" || parts[1].Kind != "slice" {
+		if okP {
+			return false, "result is " + partsString(f, parts) + ", expected zeros(L - len(x)) | x"
+		}
+		return false, "result is not zeros | x (append onto a fresh zero slice, or a copy into the tail of a fresh buffer)"
 	}
-	if bi, ok := ap.Call.Value.(*ssa.Builtin); !ok || bi.Name() != "append" || len(ap.Call.Args) != 2 {
-		return false, "result is not append(zeros, x...)"
-	}
-	mk, ok := ap.Call.Args[0].(*ssa.MakeSlice)
-	if !ok {
-		return false, "the prefix is not a freshly made (zero) slice"
-	}
-	x := ap.Call.Args[1]
+	x := parts[1].Val
 	bytesCall := staticCallTo(x, "(*math/big.Int).Bytes")
 	if bytesCall == nil {
 		return false, "x is not big.Int.Bytes()"
@@ -278,17 +277,30 @@ func (c *Ctx) dhMethodShape(m *ssa.Function, mn string) (bool, string) {
 	if !isRecvField(exp.Call.Args[3], "factor") {
 		return false, "the modulus is not the group's own factor"
 	}
-	// make length = factorBytesLength - len(x)
-	sub, ok := mk.Len.(*ssa.BinOp)
-	if !ok || sub.Op != token.SUB || !isRecvField(sub.X, "factorBytesLength") {
-		return false, "padding length is not factorBytesLength - len(x)"
+	// zeros length = factorBytesLength - len(x)
+	var fbl ssa.Value
+	for _, bb := range m.Blocks {
+		for _, ins := range bb.Instrs {
+			if v, ok := ins.(ssa.Value); ok && isRecvField(v, "factorBytesLength") {
+				fbl = v
+			}
+		}
 	}
-	lc, ok := sub.Y.(*ssa.Call)
-	if !ok {
-		return false, "padding length is not factorBytesLength - len(x)"
+	if fbl == nil {
+		return false, "the padded length is not the group's factorBytesLength"
 	}
-	if bi, ok := lc.Call.Value.(*ssa.Builtin); !ok || bi.Name() != "len" || lc.Call.Args[0] != x {
-		return false, "padding length does not subtract len(x) of the same x"
+	wantZ := f.LFOf(fbl).add(f.SliceLen(x), -1)
+	okZ := parts[0].Len.key() == wantZ.key()
+	if !okZ {
+		// E1 keeps L - len(x) as an atom when L is not bounded: compare the expression itself
+		if id, ok := singleAtom(parts[0].Len); ok {
+			if sub, ok := f.atomDef(id).(*ssa.BinOp); ok && sub.Op == token.SUB && isRecvField(sub.X, "factorBytesLength") && f.LFOf(sub.Y).key() == f.SliceLen(x).key() {
+				okZ = true
+			}
+		}
+	}
+	if !okZ {
+		return false, "padding length is " + f.Show(parts[0].Len) + ", expected factorBytesLength - len(x)"
 	}
 	return true, "Zero(factorBytesLength - len(x)) || x, x = new(big.Int).Exp(base, secret, factor).Bytes()"
 }
@@ -366,7 +378,7 @@ func (c *Ctx) randomNumberRules(r *Report, prefix string) {
 			}
 			pb := x.Preds[0]
 			iff, ok := pb.Instrs[len(pb.Instrs)-1].(*ssa.If)
-			if !ok || pb.Succs[0] != x {
+			if !ok || pb.Succs[0] == pb.Succs[1] {
 				continue
 			}
 			cond, ok := iff.Cond.(*ssa.BinOp)
@@ -379,8 +391,36 @@ func (c *Ctx) randomNumberRules(r *Report, prefix string) {
 				continue
 			}
 			kv, _ := constInt64(k.Value)
-			greater := (cond.Op == token.EQL && kv == 1) || (cond.Op == token.GTR && kv == 0) || (cond.Op == token.GEQ && kv == 1)
-			if greater && cmp.Call.Args[0] == num && cmp.Call.Args[1] == ssa.Value(minG) {
+			// Cmp yields -1, 0 or +1: on this edge, which of them can it have been? "greater" iff only +1
+			onTrue := pb.Succs[0] == x
+			only1 := true
+			any := false
+			for _, rv := range []int64{-1, 0, 1} {
+				var t bool
+				switch cond.Op {
+				case token.EQL:
+					t = rv == kv
+				case token.NEQ:
+					t = rv != kv
+				case token.LSS:
+					t = rv < kv
+				case token.LEQ:
+					t = rv <= kv
+				case token.GTR:
+					t = rv > kv
+				case token.GEQ:
+					t = rv >= kv
+				default:
+					only1 = false
+				}
+				if t == onTrue {
+					any = true
+					if rv != 1 {
+						only1 = false
+					}
+				}
+			}
+			if any && only1 && cmp.Call.Args[0] == num && cmp.Call.Args[1] == ssa.Value(minG) {
 				dom = true
 			}
 		}
